@@ -190,6 +190,14 @@ class C05(S.SchedCheck):
         yield from super().generate(rng, n - k, tier)
         for _ in range(k):
             yield S.gen_runs(rng)
+        # real=True under a scripted wall clock: one pass overruns by more than a tock at every cycle position; the run must
+        # still end at the cycle whose end TYME reaches start + limit (the model is the same: tyme is virtual)
+        for _ in range(max(12, n // 40)):
+            c = S.gen_case(rng, rng.choice(["time", "plain"]))
+            t = c[1]
+            lim = rng.choice([3 * t, 4 * t, 6 * t, 8 * t, 2.5 * t])
+            yield ("run", t, c[2], lim, c[4], c[5] + [("leaf", 9000, "doify", "ok", [([], ("yield", 0.0))] * 40)],
+                   (("real", [rng.choice([1, 2, 3, 4, 5, 6, 7, 8]), rng.choice([1.2 * t, 1.7 * t, 2.5 * t, 4 * t])]),))
         # limits that land within an ulp of a cycle end tyme (non-dyadic start / tock / limit), on long-lived programs
         tri = ulp_triples()
         y = ([], ("yield", 0.0))
@@ -210,6 +218,10 @@ class C05(S.SchedCheck):
                 # completes (done True); then cut by its limit; then the same doers again to completion; then interrupted
                 seqs.append(("runs", 1.0, 0.0, None, [(m1, None, None, [], A), (m2, None, 3.0, [], B), (m1, None, 20.0, [], B), (m2, 0.0, None, [], K)]))
         seqs.append(("runs", 0.25, 1.0, 0.5, [("ado", None, None, [], B), ("ado", 2.5, None, [], A), ("do", None, 0.0, [], B)]))
+        # extend() on the idle Doist between runs: the stray doer must take no part in the next run
+        seqs.append(("runs", 0.25, 0.0, None, [("do", None, None, [], A), ("do+x", None, None, [], A), ("ado+x", None, 100.0, [], B), ("do+x", None, None, [], [])]))
+        # an explicitly empty doers argument after runs that had doers: the run ends after one cycle with done True
+        seqs.append(("runs", 1.0, 0.0, None, [("do", None, 4.0, [], B), ("do", None, None, [], []), ("ado", None, None, [], A), ("ado", None, None, [], []), ("do", None, None, [], [])]))
         return super().corpus() + seqs
 
     def request(self, case):
@@ -241,6 +253,11 @@ class C05(S.SchedCheck):
             bad.append("run-sequence-cut-short")
         for k, (c, d) in enumerate(zip(self.call_cases(case, obs.ds), obs.ds)):
             bad += [f"{x}" for x in clauses(c, d, prev)]
+            mine = set(S.all_ids(c))
+            if any(e[1] in S.LIFE and e[0] not in mine for e in d["trace"]):
+                bad.append("run-ran-doers-that-were-not-in-its-doers-argument")
+            if list(d["doers"]) != [s[1] for s in c[5]] and not any(S.has_op(s, "extend") or S.has_op(s, "remove") for s in c[5]):
+                bad.append("doist-doers-is-not-the-doers-argument")
             prev.update(dict(d["flags"]))
         return sorted(set(bad))
 
@@ -269,8 +286,10 @@ class C05(S.SchedCheck):
             if len(calls) > 1:
                 out.append(("runs", tock, start0, limit0, calls[:n] + calls[n + 1:]))
         for n, (mode, st, lm, pool, specs) in enumerate(calls):
-            if mode == "ado":
-                out.append(("runs", tock, start0, limit0, calls[:n] + [("do", st, lm, pool, specs)] + calls[n + 1:]))
+            if mode.startswith("ado"):
+                out.append(("runs", tock, start0, limit0, calls[:n] + [("do" + mode[3:], st, lm, pool, specs)] + calls[n + 1:]))
+            if mode.endswith("+x"):
+                out.append(("runs", tock, start0, limit0, calls[:n] + [(mode[:-2], st, lm, pool, specs)] + calls[n + 1:]))
             if st is not None:
                 out.append(("runs", tock, start0, limit0, calls[:n] + [(mode, None, lm, pool, specs)] + calls[n + 1:]))
             # shrinking a program renames nothing, so reuse by id stays consistent only if every copy is replaced
